@@ -1542,7 +1542,8 @@ def real_world(kind, adapt=True):
     kw = {} if adapt else {"disable_adaptation": True}
     # "<Operator>@view": the operator acts on slice views of one packed parameter (what the command line builds for partitioned data)
     as_view = kind.endswith("@view")
-    as_transformed = kind.endswith("@transformed")
+    as_transformed = kind.endswith("@transformed") or kind.endswith("@transformed_anonymous")
+    anonymous = kind.endswith("@transformed_anonymous")
     kind = kind.split("@")[0]
     underlying = []
     if kind in ("ScalerOperator", "SlidingWindowOperator", "HMCOperator"):
@@ -1554,8 +1555,18 @@ def real_world(kind, adapt=True):
         elif as_transformed:
             # the operator acts on the constrained scale, the values live on the unconstrained one (what a model file with transformed
             # parameters hands to an operator): a rejected move must leave the UNDERLYING values bit-identical too
-            zx = Parameter("zx", torch.tensor([0.7, 1.9, 0.2]).log() * 3.1)
-            zy = Parameter("zy", torch.tensor([0.4, 2.2]).log() * 0.37)
+            # anonymous: the underlying parameters have no id (written inline in a model file without one, or built in Python with None)
+            def not_fixed_points(n, start):
+                # unconstrained values z with log(exp(z)) != z bit for bit: going back through the inverse transform MOVES them
+                out, c = [], start
+                while len(out) < n:
+                    c += 0.0371
+                    z = torch.tensor(c)
+                    if not torch.equal(torch.log(torch.exp(z)), z):
+                        out.append(c)
+                return torch.tensor(out)
+            zx = Parameter(None if anonymous else "zx", not_fixed_points(3, -1.3))
+            zy = Parameter(None if anonymous else "zy", not_fixed_points(2, 0.2))
             x = TransformedParameter("x", zx, torch.distributions.ExpTransform())
             y = TransformedParameter("y", zy, torch.distributions.ExpTransform())
             underlying = [zx, zy]
@@ -1743,7 +1754,7 @@ def restore_real(kind, reps, seed, check_log=True):
                 raise Refuted("%s: parameter '%s' requires grad after a rejected move" % (kind, p.id), witness={"kind": kind}, replay=_rr(kind, r, seed), confirmed=True)
         for p, q in zip(w.get("underlying", []), pre_under):
             if not _identical(p.tensor, q):
-                raise Refuted("%s: after step(); reject() the parameter '%s' that holds the values of the operator's parameter is %s, before the proposal it was %s "
+                raise Refuted("%s: after step(); reject() the parameter %r that holds the values of the operator's parameter is %s, before the proposal it was %s "
                               "(restored through the inverse transform: equal only up to rounding)" % (kind, p.id, p.tensor.tolist(), q.tolist()),
                               witness={"kind": kind, "rep": r, "parameter": p.id}, replay=_rr(kind, r, seed), confirmed=True)
         if not joint.lp_needs_update and not _close(joint(), lp_pre):
@@ -2671,7 +2682,8 @@ def obligations(tier, seed):
     reps = 200 if thorough else 25
     for k in REAL_KINDS:
         obs.append(Ob("C15.restore.real[%s]" % k, "U", ob_restore_real(k, reps, seed), clause=R, funcs=F, timeout=600))
-    for k in ("ScalerOperator@transformed", "SlidingWindowOperator@transformed", "ScalerOperator@view", "SlidingWindowOperator@view"):
+    for k in ("ScalerOperator@transformed", "SlidingWindowOperator@transformed", "ScalerOperator@transformed_anonymous", "SlidingWindowOperator@transformed_anonymous",
+              "ScalerOperator@view", "SlidingWindowOperator@view"):
         obs.append(Ob("C15.restore.real[%s]" % k, "B", ob_restore_real(k, reps, seed), clause=R + " (operator acting on a derived parameter: the underlying values too)", funcs=F, timeout=600))
     obs.append(Ob("C15.restore.real[HMCOperator,all-trials-fail]", "U", hmc_failure_path, clause=R, funcs=F, timeout=120))
     for k in (1, 2):
